@@ -2,6 +2,8 @@ package main
 
 import (
 	"encoding/json"
+	"go/types"
+	"golang.org/x/tools/go/ssa"
 	"fmt"
 	"os"
 	"path/filepath"
@@ -101,6 +103,11 @@ func runCheck(repo, out, prop, tier string, timeout, seed int, verbose, keep boo
 	names := funcsForProperty(P.Contracts, prop)
 	for _, u := range P.Undecided {
 		undec = append(undec, u)
+	}
+	if prop == "C10" {
+		undec = append(undec, P.UndecidedC10...)
+		probs, _ := coverageC10(P)
+		undec = append(undec, probs...)
 	}
 	var lemmas []*Lemma
 	for _, l := range P.Contracts.Lemmas {
@@ -362,3 +369,180 @@ func verifyLemma(P *Program, l *Lemma) *FuncReport {
 }
 
 // tryReplay is filled in by replay.go
+
+// coverageC10: the access discipline is checked inside functions under contract (and in the functions
+// they inline). This scan lists every other function of the package that touches a field of a shared
+// type, or calls a watched transport method, without being reached that way.
+func coverageC10(P *Program) (problems []string, covered []string) {
+	shared := map[string]bool{}
+	for _, t := range P.Contracts.Shared {
+		shared[t] = true
+	}
+	touches := func(fn *ssa.Function) bool {
+		for _, b := range fn.Blocks {
+			for _, ins := range b.Instrs {
+				var xt types.Type
+				switch x := ins.(type) {
+				case *ssa.FieldAddr:
+					if ownAlloc(x.X) {
+						continue // object built by this function and only returned: not shared yet
+					}
+					xt = x.X.Type()
+				case *ssa.Field:
+					xt = x.X.Type()
+				case ssa.CallInstruction:
+					cc := x.Common()
+					if cc.IsInvoke() {
+						for _, g := range P.Contracts.GuardCalls {
+							if g.Kind == cc.Method.Name() {
+								return true
+							}
+						}
+					}
+					continue
+				default:
+					continue
+				}
+				if pt, ok := xt.Underlying().(*types.Pointer); ok {
+					xt = pt.Elem()
+				}
+				if n, ok := xt.(*types.Named); ok && n.Obj().Pkg() == P.SSA.Pkg && shared[n.Obj().Name()] {
+					return true
+				}
+			}
+		}
+		return false
+	}
+	isGhost := func(fn *ssa.Function) bool {
+		return strings.HasSuffix(P.Fset.Position(fn.Pos()).Filename, ghostFileName)
+	}
+	contracted := func(fn *ssa.Function) bool {
+		fc := P.Contracts.Funcs[relName(fn)]
+		return fc != nil && !fc.Trusted
+	}
+	// callers: static call sites (calls, defers) and sync.Once.Do(closure); go statements do NOT count (the body runs elsewhere)
+	callers := map[*ssa.Function][]*ssa.Function{}
+	spawned := map[*ssa.Function]bool{}
+	escaped := map[*ssa.Function]bool{}
+	for _, fn := range P.Funcs {
+		if isGhost(fn) {
+			continue
+		}
+		for _, b := range fn.Blocks {
+			for _, ins := range b.Instrs {
+				if ci, ok := ins.(ssa.CallInstruction); ok {
+					cc := ci.Common()
+					if callee := cc.StaticCallee(); callee != nil {
+						if _, isGo := ins.(*ssa.Go); isGo {
+							spawned[callee] = true
+						} else {
+							callers[callee] = append(callers[callee], fn)
+						}
+						if callee.String() == "(*sync.Once).Do" && len(cc.Args) == 2 {
+							if mc, ok := cc.Args[1].(*ssa.MakeClosure); ok {
+								callers[mc.Fn.(*ssa.Function)] = append(callers[mc.Fn.(*ssa.Function)], fn)
+							}
+						}
+					}
+				}
+				if mc, ok := ins.(*ssa.MakeClosure); ok {
+					f := mc.Fn.(*ssa.Function)
+					for _, r := range *mc.Referrers() {
+						switch u := r.(type) {
+						case ssa.CallInstruction:
+							if u.Common().Value == mc {
+								continue // called, deferred or spawned directly
+							}
+							if c := u.Common().StaticCallee(); c != nil && c.String() == "(*sync.Once).Do" {
+								continue
+							}
+							escaped[f] = true
+						case *ssa.DebugRef:
+						default:
+							escaped[f] = true
+						}
+					}
+				}
+			}
+		}
+	}
+	memo := map[*ssa.Function]int{}
+	var cov func(fn *ssa.Function) bool
+	cov = func(fn *ssa.Function) bool {
+		if contracted(fn) {
+			return true
+		}
+		if v, ok := memo[fn]; ok {
+			return v == 1
+		}
+		memo[fn] = 0
+		ok := len(callers[fn]) > 0 && !spawned[fn] && !escaped[fn]
+		if fn.Parent() == nil && fn.Signature.Recv() == nil && fn.Object() != nil && fn.Object().Exported() {
+			ok = false // part of the API: callable from any goroutine
+		}
+		if recv := fn.Signature.Recv(); recv != nil && fn.Object() != nil && fn.Object().Exported() {
+			rt := recv.Type()
+			if pt, isP := rt.(*types.Pointer); isP {
+				rt = pt.Elem()
+			}
+			if n, isN := rt.(*types.Named); !isN || n.Obj().Exported() {
+				ok = false
+			}
+		}
+		for _, c := range callers[fn] {
+			if !cov(c) {
+				ok = false
+			}
+		}
+		if ok {
+			memo[fn] = 1
+		}
+		return ok
+	}
+	var names []string
+	for n := range P.Funcs {
+		names = append(names, n)
+	}
+	sort.Strings(names)
+	seen := map[*ssa.Function]bool{}
+	for _, n := range names {
+		fn := P.Funcs[n]
+		if seen[fn] || isGhost(fn) || fn.Synthetic != "" || len(fn.Blocks) == 0 {
+			continue
+		}
+		seen[fn] = true
+		if !touches(fn) {
+			continue
+		}
+		if cov(fn) {
+			covered = append(covered, n)
+		} else {
+			problems = append(problems, fmt.Sprintf("%s touches shared state but is neither under contract nor only inlined into functions under contract", n))
+		}
+	}
+	return
+}
+
+// ownAlloc: v is an allocation of this function whose only uses are field initialisation and being returned.
+func ownAlloc(v ssa.Value) bool {
+	a, ok := v.(*ssa.Alloc)
+	if !ok {
+		return false
+	}
+	for _, r := range *a.Referrers() {
+		switch u := r.(type) {
+		case *ssa.FieldAddr, *ssa.DebugRef, *ssa.Return:
+		case *ssa.MakeInterface:
+			for _, r2 := range *u.Referrers() {
+				switch r2.(type) {
+				case *ssa.Return, *ssa.DebugRef:
+				default:
+					return false
+				}
+			}
+		default:
+			return false
+		}
+	}
+	return true
+}
